@@ -607,6 +607,13 @@ static int re_rec(struct regex *re, struct rstate *rs)
 		}
 		if (ri->ri == RI_FORK) {
 			struct rstate base = *rs;
+			/* do not repeat a group that has just matched the empty string */
+			if (ri->a1 < rs->pc && ri[-1].ri == RI_MARK && ri[-1].mark & 1 &&
+					ri[-1].mark < NGRPS &&
+					rs->mark[ri[-1].mark - 1] == rs->s - rs->o) {
+				rs->pc = ri->a2;
+				continue;
+			}
 			rs->pc = ri->a1;
 			if (!re_rec(re, rs))
 				return 0;
